@@ -2,7 +2,7 @@ PROP = dict(
     model_args=[],
     trivial=lambda inp, out: out.startswith('0 '),   # trivial = game not over and nothing decided
     rule='positions: final and sampled positions of random playouts (road-racing, edge-hugging, reserve-draining policies; small custom '
-         'reserves so that games end by exhaustion with capstones left; both tie-break settings), constructed road boards (bending '
+         'reserves so that games end by exhaustion with capstones left; both tie-break settings), roads completed BY A MOVE out of Position.Move (placing a flat or capstone, sliding a piece into the gap, a capstone on own flats flattening an own or enemy wall in the gap), constructed road boards (bending '
          'self-avoiding walks edge to edge, capstones on the road, walls / enemy pieces cutting it, double roads, filled remainder), random '
          'constructed boards, full boards; sizes 3..8. non-trivial = finished game; distinct = distinct positions',
     assumptions=['positions are well-formed (produced by Move / FromSquares)'],
